@@ -1,6 +1,7 @@
 """C14 — FQDN expansion and listener-name binding (bootstrap.go tryExpandFQDN, client.go resolveAddr/getListenerName)."""
-import itertools
+import itertools, json, sys
 from .core import gstr, glist, gopt, gpair
+from . import sysgen, p_c01
 
 PROP = "C14"
 PROP_FILE = "Properties/C14.v"
@@ -13,7 +14,7 @@ RULE = ("hosts of 1..5 labels over {a,b,svc,Kitex,x1,''} (all label tuples up to
         "(incl. empty); name tables holding the expanded name, the literal name, both, neither, empty address lists, empty first address, "
         "upper-case keys. distinct_nontrivial = distinct (config,host,table) cases in which expansion changed the host or a listener was bound")
 ASSUMPTIONS = ["ASCII hosts only (Go's strings.ToLower is Unicode-aware, the model's is ASCII)",
-               "the name table is installed through the tagged hook VerifSetTable (= updateLookupTable); its history aspect is covered by C01's engine"]
+               "fqdn part: the name table is installed through the tagged hook VerifSetTable (= updateLookupTable); the binding part pushes it as NDS responses"]
 SHARD = 500
 HARNESS_SHARDS = 4
 
@@ -151,3 +152,62 @@ def histogram(cases, obs):
         if host != host.lower():
             h["mixed_case"] += 1
     return h
+
+
+class Pure:
+    """the three functions on single inputs (module-level definitions above)"""
+    NAME = "fqdn"
+    ENGINE, IMPORTS, FN, TY, SHARD, HARNESS_SHARDS = ENGINE, IMPORTS, FN, TY, SHARD, HARNESS_SHARDS
+    RULE, ASSUMPTIONS = RULE, ASSUMPTIONS
+    gen_cases = staticmethod(gen_cases)
+    to_harness = staticmethod(to_harness)
+    to_gallina = staticmethod(to_gallina)
+    nontrivial = staticmethod(nontrivial)
+    describe = staticmethod(describe)
+    shrink = staticmethod(shrink)
+    model_view = staticmethod(model_view)
+    histogram = staticmethod(histogram)
+
+
+class BindGen(sysgen.SysGen):
+    LOOKUP_TYPES = ["lds"] * 5 + ["rds", "cds", "eds"]
+    RESP_BIAS = ["lds"] * 3 + ["nds"] * 2
+
+
+class Binding(p_c01.Part):
+    """the binding inside the client: every subscribed address of a listener push is bound through the name table
+    then current (handleLDS), over histories in which several spellings and ports of one service are subscribed and
+    the table changes between pushes; model, comparison and per-key specification are C01's (theorem C14_binding)"""
+    NAME = "binding"
+    N_QUICK, N_THOROUGH = 120, 1500
+    RULE = ("binding part: histories as in C01 with the name table always required, lookups mostly of service addresses (the same service in several "
+            "spellings, with ports 80 / 8888 and without a port, an unresolvable host), listener and name-table pushes over-represented; "
+            "the cache, the lookup results and the name table are compared with the model after every operation and the per-key fold is evaluated "
+            "on the implementation's snapshots")
+
+    @classmethod
+    def gen_cases(cls, rng, tier):
+        n = cls.N_QUICK if tier == "quick" else cls.N_THOROUGH
+        return [BindGen(rng).history(rng.choice([8, 12, 20, 30]), istio=True, lds_warm=rng.random() < 0.3) for _ in range(n)]
+
+    @staticmethod
+    def PROJECT(v, c, o):
+        (cache, lookup, reqs, watched, acks, table, closed, s1, s2, s3, s4, s10, s19, sfull) = v
+        return (cache and lookup and table and watched, s1 and sfull)
+
+    @classmethod
+    def model_view(cls, c, o, tier):
+        return sysgen.model_view(PROP, c, o, tier)
+
+    @staticmethod
+    def nontrivial(c, o):
+        if o.get("fatal"):
+            return None
+        hit = any(op["op"] == "lookup" and op["rt"] == "lds" and st.get("lookup") and st["lookup"][0] == "LHit"
+                  for op, st in zip(c["ops"], o["steps"][len(o["steps"]) - len(c["ops"]):]))
+        return json.dumps(c["ops"], sort_keys=True) if hit else None
+
+
+RULE = "fqdn part: " + RULE + "; " + Binding.RULE
+ASSUMPTIONS = ASSUMPTIONS + ["binding part: " + a for a in p_c01.ASSUMPTIONS]
+PARTS = [Pure, Binding]
